@@ -48,7 +48,7 @@ def run(ctx):
     leaves = C18.table_of(ctx, F, 'C06.R7')
     if leaves is not None:
         table = {}
-        vals = C18.valuations()
+        vals = C18.valuations(leaves)
         for v in vals:
             hits = C18.lookup(leaves, v)
             table[C18.vdesc(v)] = hits[0] if len(hits) == 1 else 'ambiguous'
@@ -508,21 +508,8 @@ def r5(ctx, F, bs):
     common_arg = at['args'][bs.roles['common'] - 1]
 
     def root_local(op):
-        l = op['p']['l']
-        for _ in range(8):
-            ds = r.defs.get(l, [])
-            # an unnamed temporary, or a named local that is nothing but another local moved/copied into it (the parameter
-            # of a spliced helper, `let x = y;`)
-            pure_rename = len(ds) == 1 and ds[0][2] == 'assign' and ds[0][3]['k'] == 'use' and not ds[0][4] and \
-                ds[0][3]['ops'][0].get('p') is not None and not ds[0][3]['ops'][0]['p']['proj']
-            if len(ds) == 1 and ds[0][2] == 'assign' and ds[0][3]['k'] in ('ref', 'use') and (not R.local_name(l) or pure_rename):
-                src = ds[0][3].get('p') or ds[0][3]['ops'][0].get('p')
-                if src is None:
-                    break
-                l = src['l']
-            else:
-                break
-        return l
+        cr = chase_root(r, op)
+        return cr[0] if cr else None
     same_map = root_local(common_arg) == root_local(ent[1]['rv']['ops'][0])
     arc_l = ent[1]['dst']['l']
     saved = {o for o in r.origins(st['args'][0])}
